@@ -146,6 +146,37 @@ def run_differential(ctx, cases, project, config='default', label=None, classify
     return impl, model
 
 
+_interesting = None
+
+
+def interesting_values(dom):
+    """values a quick-tier sweep over a 2^16 domain must not skip: every code point any registry names (reference/iana.py:
+    versions, extension types, named groups, signature schemes, cipher-suite ids, ...) and its neighbours, byte-swapped
+    forms, hash/sign byte pairs of the registered algorithms, powers of two and their neighbours"""
+    global _interesting
+    if _interesting is None:
+        import sys
+        sys.path.insert(0, core.VERIF + '/reference')
+        import iana
+        vals = set()
+        for t, names in iana.IANA.items():
+            for v in names.values():
+                vals.update((v - 1, v, v + 1, ((v & 255) << 8) | (v >> 8)))
+        hs = list(iana.IANA.get('HashAlgorithm', {}).values()) + [7, 9]
+        sg = list(iana.IANA.get('SignAlgorithm', {}).values()) + [4, 5, 6, 9, 10, 11]
+        vals.update(h * 256 + g for h in hs for g in sg)
+        for k in range(17):
+            vals.update((2 ** k - 1, 2 ** k, 2 ** k + 1))
+        try:
+            for l in open(core.REPO + '/scripts/tls-ciphersuites.txt'):
+                if ':' in l:
+                    vals.add(int(l.split(':')[0], 16))
+        except (OSError, ValueError):
+            pass
+        _interesting = vals
+    return sorted(v for v in _interesting if 0 <= v < dom)
+
+
 class CgCase:
     """one decoded input of the coverage-guided corpus (tools/cg.py)"""
     __slots__ = ('line', 'fam')
